@@ -4,6 +4,11 @@ import "verif/sim/kit"
 
 // wiresim: C30 (packet framing), C31 (encrypted channel), C32 (peer identity), C33 (flooding filter).
 func init() {
+	// every mutex acquisition in this file is a scheduling point of the wiresim runs (C33: arrivals of one
+	// flooded packet through several peers interleave inside PacketPool.Put / Contains). p2p.go and set.go
+	// are deliberately not instrumented: PeerToPeer walks its peer sets in Go map order, and a yield inside
+	// such a walk would let the (unseedable) map order leak into the schedule - replays diverged.
+	kit.EngineInstrument["wiresim"] = []string{"network/pool.go"}
 	const technique = "deterministic simulation: real goloop network code over simulated duplex byte streams (net.Conn) whose chunking, short writes, byte flips, " +
 		"frame reorder/replay (man in the middle) and close-at-arbitrary-byte are tape decisions; writer/reader/adversary tasks under a cooperative token scheduler " +
 		"(one task runs at a time, the tape picks which) inside a testing/synctest bubble; reference-model oracles; tape minimisation and replay"
